@@ -52,6 +52,29 @@ def run(chk):
     for name in ("Heff1", "Heff2"):
         e7.check_projector_form(chk, "O5", pj.methods[name], pj.methods[name].params[1])
     e7.check_krylov_combination(chk, "O6", prog.func("yastn.krylov._krylov", "eigs"))
+    # early termination: the sweep loop may stop early only when *every* requested tolerance is met (and at least one was requested)
+    chk.rule("O7", "DMRG stops early only when all requested tolerances are met", floor=1)
+    dm = prog.func(DMRG, "_dmrg_")
+    lists = {}
+    for n in ast.walk(dm.node):
+        if isinstance(n, ast.Call) and A.callee_attr(n) == "append" and isinstance(n.func.value, ast.Name) and n.args and isinstance(n.args[0], ast.Compare) \
+                and any("tol" in A.text(x) for x in ast.walk(n.args[0])):
+            lists.setdefault(n.func.value.id, []).append(n)
+    chk.require(lists, "_dmrg_: list of per-tolerance convergence verdicts not found")
+    cv = max(lists, key=lambda k: len(lists[k]))
+    brk = [n for n in ast.walk(dm.node) if isinstance(n, ast.If) and any(isinstance(b_, ast.Break) for b_ in n.body)
+           and cv in {x.id for x in ast.walk(n.test) if isinstance(x, ast.Name)}]
+    chk.require(brk, "_dmrg_: early-termination test on the convergence verdicts not found")
+    from ..core.minieval import evaluate, CannotEvaluate
+    try:
+        fires = {repr(w): bool(evaluate(brk[0].test, {cv: w})) for w in ([], [True], [False], [True, False], [False, True], [True, True])}
+    except CannotEvaluate as e:
+        raise AnalysisError(f"_dmrg_: cannot evaluate the early-termination test `{A.text(brk[0].test)}` ({e})")
+    want = {"[]": False, "[True]": True, "[False]": False, "[True, False]": False, "[False, True]": False, "[True, True]": True}
+    wrong = [k for k in want if fires[k] != want[k]]
+    chk.verdict("O7", (dm, brk[0]), f"early termination `{A.text(brk[0].test)}`", True if not wrong else False,
+                f"_dmrg_: the sweep loop stops early for the verdict lists {wrong} (test `{A.text(brk[0].test)}`): a run reports convergence although a "
+                f"requested tolerance (energy_tol / Schmidt_tol) is not met, and returns a state that is not converged")
     paths = 0
     from . import e10
     e10.run_U(chk, ("yastn.tn.mps._dmrg", "yastn.tn.mps._env", "yastn.krylov", "yastn.tensor._krylov"), rule1="U1", rule2="U2", floor1=40, floor2=10)
